@@ -104,7 +104,7 @@ def h_manager(sym, rungs=None, W=2, E=10, mode="min", max_fail=3, concrete_metri
     sym.goal("end")
 
 
-def h_scheduler(sym, geometric=None, rungs=None, W=2, E=9, mode="min", max_fail=1, max_t=4, ckpt=True):
+def h_scheduler(sym, geometric=None, rungs=None, W=2, E=9, mode="min", max_fail=1, max_t=4, ckpt=True, dehb=False):
     """scheduler API level: never blocks, pauses exactly at milestones, resumes only paused trials to
     the next level, failed jobs do not block the bracket"""
     from syne_tune.optimizer.schedulers.synchronous.hyperband_impl import SynchronousGeometricHyperbandScheduler
@@ -112,7 +112,12 @@ def h_scheduler(sym, geometric=None, rungs=None, W=2, E=9, mode="min", max_fail=
     from syne_tune.config_space import uniform
     stubs.shim_modules([HB, "syne_tune.optimizer.schedulers.synchronous.hyperband"])
     cs = {"x": uniform(0, 1), "epochs": max_t}
-    if geometric:
+    if dehb:
+        from syne_tune.optimizer.schedulers.synchronous.hyperband_impl import GeometricDifferentialEvolutionHyperbandScheduler
+        stubs.shim_modules(["syne_tune.optimizer.schedulers.synchronous.dehb", "syne_tune.optimizer.schedulers.synchronous.dehb_bracket"])
+        sch = make(GeometricDifferentialEvolutionHyperbandScheduler, cs, metric="m", mode=mode, resource_attr="r",
+                   max_resource_attr="epochs", grace_period=geometric[0], reduction_factor=geometric[1], random_seed=2)
+    elif geometric:
         sch = make(SynchronousGeometricHyperbandScheduler, cs, metric="m", mode=mode, resource_attr="r",
                    max_resource_attr="epochs", grace_period=geometric[0], reduction_factor=geometric[1], random_seed=2)
     else:
@@ -132,7 +137,7 @@ def h_scheduler(sym, geometric=None, rungs=None, W=2, E=9, mode="min", max_fail=
         if kind == "suggest":
             nid = len(trials)
             s = sch.suggest(nid)
-            sym.check(s is not None, "C05.request-for-work-blocks", "suggest returned None with %d running" % len(running))
+            sym.check(s is not None, "C05.request-for-work-blocks" + ("[dehb]" if dehb else ""), "suggest returned None with %d running (failed=%s)" % (len(running), sorted(failed)))
             if s.spawn_new_trial_id:
                 tid = nid
                 trials[tid] = new_trial(tid, s.config)
@@ -163,10 +168,12 @@ def h_scheduler(sym, geometric=None, rungs=None, W=2, E=9, mode="min", max_fail=
             d = sch.on_trial_result(trials[tid], {"m": v, "r": r})
             sym.event("t%d r=%d -> %s" % (tid, r, d))
             if r == target[tid]:
-                sym.check(d == "PAUSE", "C05.no-pause-at-milestone", "trial %d at level %d: %s" % (tid, r, d))
+                # DEHB stops (does not pause) trials that will never be resumed: rungs after the first bracket
+                sym.check(d == "PAUSE" or (dehb and d == "STOP"), "C05.no-pause-at-milestone", "trial %d at level %d: %s" % (tid, r, d))
                 sch.on_trial_remove(trials[tid])
                 running.remove(tid)
-                paused.add(tid)
+                if d == "PAUSE":
+                    paused.add(tid)
             else:
                 sym.check(d == "CONTINUE", "C05.decision-before-milestone", "trial %d at level %d (milestone %d): %s" % (tid, r, target[tid], d))
         else:
@@ -179,7 +186,7 @@ def h_scheduler(sym, geometric=None, rungs=None, W=2, E=9, mode="min", max_fail=
     # C13: brackets do not wait forever for a failed job -- with nothing running, work is still handed out
     if not running:
         s = sch.suggest(len(trials))
-        sym.check(s is not None, "C13.bracket-blocked-after-failure", "nothing is running, yet suggest returns None (failed=%s)" % sorted(failed))
+        sym.check(s is not None, "C13.bracket-blocked-after-failure" if not dehb else "C05.request-for-work-blocks[dehb]", "nothing is running, yet suggest returns None (failed=%s)" % sorted(failed))
         sym.goal("drained")
     sym.goal("end")
 
@@ -215,6 +222,9 @@ def obligations(tier):
     obs.append(Ob("C05.b[scheduler,custom,max,no-ckpt]", "props.c05:h_scheduler", dict(rungs=R1, W=2, E=9, mode="max", max_fail=1, max_t=3, ckpt=False),
                   bounds=dict(rungs=R1, W=2, events=9, failures="<=1"), goals=("promotion", "failure", "end"),
                   split=(("c1", (0, 1, 2)), ("c2", (0, 1, 2, 3, 4))), budget_s=1800))
+    obs.append(Ob("C05.b[dehb,geometric(1,2),max_t=2]", "props.c05:h_scheduler", dict(geometric=[1, 2], W=2, E=8, mode="max", max_fail=1, max_t=2, dehb=True),
+                  bounds=dict(grace=1, rf=2, max_t=2, W=2, events=8, failures="<=1"), goals=("promotion", "failure", "end"),
+                  split=(("c1", (0, 1, 2)), ("c2", (0, 1, 2, 3, 4))), budget_s=1800))
     if not quick:
         obs.append(Ob("C05.c[manager,W=3]", "props.c05:h_manager", dict(rungs=R1, W=3, E=11, mode="min", max_fail=2), bounds=dict(rungs=R1, W=3, events=11),
                       goals=("promotion", "end"), split=(("c1", (0, 1)), ("c2", (0, 1, 2)), ("c3", (0, 1, 2, 3))), budget_s=3000, may_be_incomplete=True))
@@ -224,7 +234,10 @@ def obligations(tier):
 def failure_obligations(tier):
     """C13(b)"""
     R1 = [[[3, 1], [1, 3]], [[1, 3]]]
-    return [Ob("C13.b[sync-hyperband,geometric,failures<=2]", "props.c05:h_scheduler", dict(geometric=[1, 2], W=2, E=8, mode="min", max_fail=2, max_t=4),
+    return [Ob("C13.b[dehb,geometric(1,2),max_t=2,failures<=2]", "props.c05:h_scheduler", dict(geometric=[1, 2], W=2, E=8, mode="min", max_fail=2, max_t=2, dehb=True),
+               bounds=dict(grace=1, rf=2, max_t=2, W=2, events=8, failures="<=2"), goals=("failure", "end", "promotion"),
+               split=(("c1", (0, 1, 2)), ("c2", (0, 1, 2, 3, 4))), budget_s=1800),
+            Ob("C13.b[sync-hyperband,geometric,failures<=2]", "props.c05:h_scheduler", dict(geometric=[1, 2], W=2, E=8, mode="min", max_fail=2, max_t=4),
                bounds=dict(grace=1, rf=2, max_t=4, W=2, events=8, failures="<=2"), goals=("failure", "end", "drained"),
                split=(("c1", (0, 1, 2)), ("c2", (0, 1, 2, 3, 4))), budget_s=1800),
             # rung of 3 -> 1: with <= 2 failures at least one valid result exists, so a failed trial must never be resumed
